@@ -102,7 +102,7 @@ fn main() {
             let max_steps: u64 = arg(&args, "--steps", "8").parse().unwrap();
             for i in 0..n {
                 let mut pr = r.fork();
-                crashrun::run_history(&mut pr, &out, i, i % 2 == 1, max_steps, &mut o);
+                crashrun::run_history(&mut pr, &out, i, i % 2 == 1, max_steps, arg(&args, "--sample", "1000").parse().unwrap(), &mut o);
             }
             write_lines(&format!("{}/oracle.txt", out), &o.oracle);
             o.stats.insert("snapshots".into(), o.snapshots);
